@@ -563,3 +563,68 @@ contract(F, 'TableValidator._validate_json', tier='P', props=['C15'],
     ],
     raises=ANY_EXC, modifies=['self._format_version'],
     loops={0: dict(header="for key, method in required_keys", invariant=_VJ_INV)})
+
+
+# ---- the HDF5 half, attribute level ---------------------------------------------------------------------------
+# An open HDF5 table is modelled as an object whose `attrs` mapping holds JSON-like values (numbers, text, sequences;
+# h5py hands byte strings and numpy scalars / arrays out - a byte string is modelled as the text it decodes to).  Datasets
+# and groups are not modelled: _validate_hdf5, _valid_hdf5_axis and the metadata checks stay bounded.
+ASSUMED['h5-attrs'] = ('an open HDF5 table is modelled as an object whose `attrs` mapping holds JSON-like values (integers, '
+                       'text, sequences); byte-string attributes are modelled as the text they decode to; groups and '
+                       'datasets are not modelled')
+
+
+def _vw_make_input_h5(self, eng, st, name, ty):
+    if ty == 'H5':
+        self.used.add('h5-attrs')
+        a = VJson(fresh(name + '_attrs', J))
+        st.assume(a.is_('obj'))
+        return st.alloc(Obj('H5', {'attrs': a}))
+    return _prev_make_input_h5(self, eng, st, name, ty)
+
+
+_prev_make_input_h5 = ValidatorWorld.make_input
+ValidatorWorld.make_input = _vw_make_input_h5
+
+
+def _vw_method_h5(self, eng, st, recv, name, args, kwargs, node, starv=None, dstar=None):
+    if name == 'replace' and recv.kind == 'str' and len(args) == 2 and all(a.kind == 'str' for a in args):
+        texts = [smt.lit_text(z3.simplify(x.term)) for x in [recv] + list(args)]
+        if all(t is not None for t in texts):
+            return [Result(st, VStr(texts[0].replace(texts[1], texts[2])))]     # literal strings: computed
+    return _prev_method_h5(self, eng, st, recv, name, args, kwargs, node, starv, dstar)
+
+
+_prev_method_h5 = ValidatorWorld.call_method
+ValidatorWorld.call_method = _vw_method_h5
+
+A = "table.attrs"
+contract(F, 'TableValidator._valid_nnz', tier='A', props=['C15'],
+    types={'self': 'Obj:TableValidator', 'table': 'H5'}, returns='Str',
+    ensures=["implies(result == '', jhas(%s, 'nnz') and is_jint(%s['nnz']) and jint(%s['nnz']) >= 0)" % (A, A, A)],
+    raises=ANY_EXC, modifies=[])
+
+contract(F, 'TableValidator._valid_shape', variant='hdf5', tier='A', props=['C15'],
+    types={'self': 'Obj:TableValidator', 'table': 'H5'}, returns='Str',
+    ensures=["implies(result == '', jhas(%s, 'shape') and is_jlist(%s['shape']) and jlen(%s['shape']) == 2 "
+             "        and is_jint(%s['shape'][0]) and is_jint(%s['shape'][1]))" % (A, A, A, A, A)],
+    raises=ANY_EXC, modifies=[])
+
+contract(F, 'TableValidator._valid_format_url', variant='hdf5', tier='A', props=['C15'],
+    types={'self': 'Obj:TableValidator', 'table': 'H5'}, returns='Str',
+    ensures=["implies(result == '', jhas(%s, 'format-url') and is_jstr(%s['format-url']) "
+             "        and jstr(%s['format-url']) == 'http://biom-format.org')" % (A, A, A)], raises=ANY_EXC, modifies=[])
+
+contract(F, 'TableValidator._valid_generated_by', variant='hdf5', tier='A', props=['C15'],
+    types={'self': 'Obj:TableValidator', 'table': 'H5'}, returns='Str',
+    ensures=["implies(result == '', jhas(%s, 'generated-by') and not is_jnull(%s['generated-by']))" % (A, A)],
+    raises=ANY_EXC, modifies=[])
+
+contract(F, 'TableValidator._valid_type', variant='hdf5', tier='A', props=['C15'],
+    types={'self': 'Obj:TableValidator', 'table': 'H5'}, returns='Str',
+    ensures=["implies(result == '', jhas(%s, 'type') and is_jstr(%s['type']) and len(jstr(%s['type'])) > 0)" % (A, A, A)],
+    raises=ANY_EXC, modifies=[])
+
+contract(F, 'TableValidator._valid_creation_date', tier='A', props=['C15'],
+    types={'self': 'Obj:TableValidator', 'table': 'H5'}, returns='Str',
+    ensures=[], internal=["ccount('TableValidator._valid_date') == 1"], raises=ANY_EXC, modifies=[])
